@@ -79,9 +79,15 @@ class DNSCache:
         # direction would return the old incorrect entry.
         store = self.cache.setdefault(record.key, {})
         new = record not in store and not isinstance(record, DNSNsec)
+        # Assigning to an existing key only replaces the value, the old record
+        # object would stay behind as the key and be seen by every lookup that
+        # iterates the store, so drop it first.
+        store.pop(record, None)
         store[record] = record
         if isinstance(record, DNSService):
-            self.service_cache.setdefault(record.server_key, {})[record] = record
+            service_store = self.service_cache.setdefault(record.server_key, {})
+            service_store.pop(record, None)
+            service_store[record] = record
         return new
 
     def async_add_records(self, entries: Iterable[DNSRecord]) -> bool:
